@@ -339,7 +339,7 @@ func (r *Reader) initFields() error {
 			Name:    "",
 			Type:    "dir",
 			Mode:    0755,
-			NumLink: 1,
+			NumLink: 2, // The directory itself(.) and the parent link to this directory.
 		}
 	}
 
